@@ -115,7 +115,7 @@ func vC09SizeOf(size int) int {
 
 func TestVerifC09Compaction(t *testing.T) {
 	vC09CompactionProperty(t, "TestVerifC09Compaction", false,
-		"bed T: 1-8 generated generations of TSM files (drawn generation/sequence numbers, a generation cut into 1-3 consecutive sequence files, files created in drawn order; 1-12 keys of all five types, keys missing from some files, one key near the maximum length; per key and file 0-6 blocks of 1/2/999/1000/random points whose ranges across generations are disjoint, adjacent, interleaved, nested or identical; tombstones per file: whole key, key range, whole block, partial, covering nothing, random; applied before or after the store is opened; timestamps also at both ends of the valid range), a group of whole contiguous generations compacted with CompactFast/CompactFull at Size default/10/1, optional failure injection (DisableCompactions from the compact.block / compact.filewritten hook, corrupted block, pre-existing output name) followed by a retry, optional second compaction round, reopen; oracle = independent newest-wins fold minus per-file tombstones read through ReadAll and KeyCursor (asc/desc), output validity, originals byte-identical after a failure. non-trivial = two group files share a key with identical/nested/interleaved block ranges or a tombstone cuts a block partially; distinct = hash of the full layout + mode + size + injection")
+		"bed T: 1-8 generated generations of TSM files (drawn generation/sequence numbers, a generation cut into 1-3 consecutive sequence files, files created in drawn order; 1-12 keys of all five types, keys missing from some files, one key near the maximum length; per key and file 0-6 blocks of 1/2/999/1000/random points whose ranges across generations are disjoint, adjacent, interleaved, nested or identical; tombstones per file: whole key, key range, whole block, partial, covering nothing, random; applied before or after the store is opened; timestamps also at both ends of the valid range), a group of whole contiguous generations compacted with CompactFast/CompactFull at Size default/10/1, optional failure injection (DisableCompactions from the compact.block / compact.filewritten hook, corrupted block, pre-existing output name) followed by a retry, optional second compaction round, reopen; oracle = independent newest-wins fold minus per-file tombstones read through ReadAll and KeyCursor (asc/desc), output validity, originals byte-identical after a failure. non-trivial = two group files share a key with identical/nested/interleaved block ranges or a tombstone cuts a block partially; distinct = hash of the full layout + mode + size + injection; injection reader-error: at the first block written the last key of one input file (holding at least two keys) is removed from that file's reader - the one error a block iterator reports - and the compaction must fail, leave the originals in place and be repeatable")
 }
 
 // TestVerifC09BlockLimit is the same property on the block-count-limit scenario: one key with
